@@ -6,6 +6,8 @@
 //   sw3 <lead>            all 65536 buffers  lead * *               (3 bytes available)
 //   sw2 <lead>            all 256 buffers    lead *                 (2 bytes available)
 //   sw1 <lead>            the buffer         lead                   (1 byte available)
+// On every accepted sequence additionally: utf_traits<char>::decode_valid, cppcms::utf8::encode/width and
+// utf_traits<char>::encode/width give back the same code point / the same bytes.
 // answer: <op> n=<buffers> acc=<accepted by cppcms> acch=<accepted in html mode> accb=<accepted by booster>
 //         sum=<sum of the code points returned by cppcms> mism=<disagreements with the reference> first=<hex|->
 #include "utf_iterator.h"
@@ -85,6 +87,15 @@ static inline void one(acc &A,unsigned char const *buf,int avail)
 		if(avail==4 && c==booster::locale::utf::incomplete) bad=true;
 	}
 	if(c!=booster::locale::utf::illegal && c!=booster::locale::utf::incomplete) A.ab++;
+	if(rl) {
+		// on a valid sequence: the unchecked decoder of the support library and both encoders agree with the reference
+		p=b; c=btraits::decode_valid(p);
+		if(c!=rc || p-b!=rl) bad=true;
+		cppcms::utf8::seq s=cppcms::utf8::encode(rc);
+		if(int(s.len)!=rl || memcmp(s.c,b,rl)!=0 || cppcms::utf8::width(rc)!=rl) bad=true;
+		char tmp[8]; char *te=btraits::encode(rc,tmp);
+		if(te-tmp!=rl || memcmp(tmp,b,rl)!=0 || btraits::width(rc)!=rl) bad=true;
+	}
 	A.n++;
 	if(bad) { if(!A.mism) A.first=hex(std::string(b,avail)); A.mism++; }
 }
